@@ -477,7 +477,29 @@ def r01c(ctx):
     early = [b for b in walk_no_nested(init.node) if isinstance(b, (ast.Break, ast.Continue)) and any(
         isinstance(t, ast.Compare) and any(isinstance(o, (ast.Lt, ast.Gt, ast.LtE, ast.GtE)) for o in t.ops)
         for t, pol in flatten_conditions(dominating_conditions(b)))]
-    if keyeq and not early:
+    # ... and *only* f.key == t.key decides: any further condition on the two pairs (a type comparison of the keys, say) lets a
+    # key that is in both mappings fall through to the matcher - diff() works on an edited copy of the from-tree, whose nodes are
+    # instances of generated Edited<Class> subclasses, so `type(f.key) is type(t.key)` never holds there
+    narrowed = []
+    if nb and pm:
+        pairvars = {nb["A"], nb["B"]}
+        for t_, pol_ in flatten_conditions(dominating_conditions(pm[0])):
+            txt_ = ast.unparse(t_).replace(" ", "")
+            names_ = {x.id for x in ast.walk(t_) if isinstance(x, ast.Name)}
+            if not (names_ & pairvars):
+                continue
+            if pol_ and txt_ in (f"{nb['A']}.key=={nb['B']}.key", f"{nb['B']}.key=={nb['A']}.key"):
+                continue
+            if pol_ and isinstance(t_, ast.Call) and call_name(t_) == "isinstance" and "KeyValuePairNode" in txt_:
+                continue
+            narrowed.append((t_, pol_))
+    if narrowed:
+        t_, pol_ = narrowed[0]
+        ctx.violation("R01c", f, "MultiSetEdit.__init__", t_, "pre-match by key equality",
+                      f"the key pre-match also requires `{'' if pol_ else 'not '}{norm(t_, 60)}`: two pairs with equal keys that fail it are not "
+                      f"pre-matched, and under the `auto` strategy the key is then paired with whatever the matcher finds cheapest "
+                      f"(TreeNode.diff() compares Edited<Class> copies with plain nodes: their types never coincide)")
+    elif keyeq and not early:
         ctx.proved("R01c", f, "MultiSetEdit.__init__", keyeq[0], "pre-match by key equality",
                    "pairs are pre-matched only under f.key == t.key and no ordering shortcut skips candidates")
     elif early:
